@@ -95,11 +95,18 @@ class Obligation:
         r = z3.unknown
         # `unknown` is retried with another seed and a larger budget: verdicts must not flip when
         # the machine is busy (slow queries are the unstable ones)
-        for attempt, (seed, mult) in enumerate(((0, 1), (7, 2), (13, 4))):
+        if self.goal is not None and z3.is_true(z3.simplify(self.goal, pull_cheap_ite=True, hoist_ite=True)):
+            self.status = "discharged"
+            self.time = time.time() - t
+            return self.status
+        # the sequence solver is unstable on identical input (the same query takes ms or minutes):
+        # short attempts with different seeds first, then growing budgets
+        for attempt, (seed, mult) in enumerate(((0, 0.3), (1, 0.3), (2, 0.5), (3, 1), (7, 2), (13, 4))):
             s = z3.Solver()
-            s.set("timeout", timeout_ms * mult)
+            s.set("timeout", int(timeout_ms * mult))
             if attempt:
                 s.set("random_seed", seed)
+                s.set("smt.random_seed", seed)
             for p in self.premises:
                 s.add(p)
             if self.goal is not None:
